@@ -142,9 +142,9 @@ def compute_features_2d(sigs, fs, f_range, compute_features_kwargs=None, axis=0,
 
             for idx, compute_kwargs in enumerate(kwargs):
 
-                burst_method = compute_kwargs.pop('burst_method', 'cycles')
-                thresholds = compute_kwargs.pop('threshold_kwargs', {})
-                center_extrema_next = compute_kwargs.pop('center_extrema', None)
+                burst_method = compute_kwargs.get('burst_method', 'cycles')
+                thresholds = compute_kwargs.get('threshold_kwargs', {})
+                center_extrema_next = compute_kwargs.get('center_extrema', None)
 
                 if idx > 0 and center_extrema_next is not None \
                     and center_extrema_next != center_extrema:
